@@ -328,6 +328,32 @@ fn run_model_ops(ctx: &mut Ctx) {
             }
         }
     }
+    // UTF-8 literal source: acceptance must not depend on the fragmentation of the source
+    let alpha: [u8; 9] = [0xC3, 0xA9, 0xE4, 0xB8, 0x80, b'a', b'\r', b'\n', 0xF0];
+    let maxlen = ctx.pick(4, 5);
+    for n in 0..=maxlen {
+        for s in gen::all_strings(&alpha, n) {
+            // thin out: all strings up to length 3, a deterministic sample above
+            if n >= 4 && (s.iter().fold(0usize, |a, &b| a * 31 + b as usize) % 7 != 0) {
+                continue;
+            }
+            let valid = std::str::from_utf8(&s).is_ok();
+            let canonical = crate::props::c14::canon_ref(&s) == s;
+            for ch in gen::all_chunkings(&s) {
+                let r = guarded(|| {
+                    let src = ScheduledReader::from_chunks(&ch);
+                    let mut b = MessageBuilder::from_reader("", src);
+                    if b.data_mode(DataMode::Utf8).is_err() {
+                        return false;
+                    }
+                    b.to_vec(rand::thread_rng()).is_ok()
+                });
+                let ans = match r { Ok(true) => "ok:1", Ok(false) => "ok:0", Err(_) => "panic" };
+                ctx.case(format!("utf8_literal_accepts chunks={}", hx_list(&ch)), ans.to_string());
+                ctx.oracle("utf8_literal_accepts_iff_valid_canonical", "literal_data.rs Utf8CheckReader/CrLfCheckReader", &format!("chunks={}", hx_list(&ch)), r == Ok(valid && canonical), &format!("accepted {r:?} valid {valid} canonical {canonical}"));
+            }
+        }
+    }
     // CFB StreamEncryptor block structure under a 1-byte consumer: total length and no early EOF
     let mut rng = ChaCha8Rng::seed_from_u64(ctx.seed ^ 0xC092);
     for n in [0usize, 1, 15, 16, 17, 100, 8191, 8192, 8193, 20000] {
